@@ -121,11 +121,33 @@ class CdfCase(Case):
     out, out2 = f(x), f(x2)
     cl = [('same-shape', B.const(tuple(out.a.shape) == tuple(out2.a.shape)))]
     eps = {'layer': 1e-3, 'fn': 1e-8}[which] if kw['reduction'] == 'geometric_mean' else 0
+    if eps:
+      # instances of the monotonicity axioms of log / exp at the constant end points eps and 1 + eps
+      # (floating constants rounded outwards): t <= 1+eps => log t <= L ; t >= eps => log t >= l ;
+      # m <= L => exp m <= U ; m >= l => exp m >= u
+      import math
+      L_, l_ = math.log(1 + eps) * (1 + 1e-9) + 1e-15, math.log(eps) * (1 + 1e-9) - 1e-15
+      U_, u_ = math.exp(L_) * (1 + 1e-9), math.exp(l_) * (1 - 1e-9)
+      polys = [P.lift(v) for t_ in (out, out2) for v in t_.a.flat]
+      for i in sorted(E.atoms_closure(polys, [])):
+        a = E.ATOMS[i]
+        if a.kind == 'fn' and a.name == 'log':
+          t_ = P.lift(a.args[0])
+          r = E.fn('log', t_)
+          c.assume((t_ <= P.const(1) + P.const(eps)).implies(r <= L_) & (t_ >= P.const(eps)).implies(r >= l_),
+                   'axiom instance: log monotone at eps, 1+eps (exact rational end points)')
+        if a.kind == 'fn' and a.name == 'exp':
+          m_ = P.lift(a.args[0])
+          r = E.fn('exp', m_)
+          c.assume((m_ <= L_).implies(r <= U_) & (m_ >= l_).implies(r >= u_), 'axiom instance: exp monotone at log(eps), log(1+eps)')
     for idx in np.ndindex(*out.a.shape):
       o, o2 = P.lift(out.a[idx]), P.lift(out2.a[idx])
       cl.append(('non-decreasing%s' % (list(idx),), o <= o2))
       if kw['reduction'] != 'geometric_mean':
         cl.append(('in-[0,1]%s' % (list(idx),), (o >= 0) & (o <= 1)))
+      else:
+        # "up to the documented epsilon of the geometric mean": 0 < out <= 1 + eps (+ rounding of the constants)
+        cl.append(('in-(0,1+eps]%s' % (list(idx),), (o > 0) & (o <= 1 + eps * (1 + 1e-6) + 3e-9)))
     return cl
 
 
@@ -444,7 +466,7 @@ EVIDENCE = {
         'cyclic, missing input mapped to the missing output. Products of bounded quantities are discharged through '
         'abstract product lemmas proved once and instantiated; derived-parameter facts (gaps > 0, increments >= 0, start + '
         'increments <= output_max, squashed outputs inside the range) are staged `have:` obligations. Level `other`: the '
-        'geometric-mean bound (documented epsilon) is not proved, only its monotonicity.'),
+        'geometric-mean bound: 0 < out <= 1 + eps from instances of the log / exp monotonicity axioms at the end points.'),
     'rule': 'one obligation = (function, configuration, clause, unit)',
     'bounds': 'pwl_calibration_fn: 2-3 (quick) / 2-4 keypoints, units <= 2, clamp / cyclic / missing modes; CDF: input_dim <= 2, '
               'units <= 2, keypoints <= 2/3, both activations, three reductions, three scaling types, sparsity factors 1-2',
@@ -452,7 +474,7 @@ EVIDENCE = {
     'trusted_base': ['vt operator contracts', 'axioms: softmax entries > 0 summing to 1; sigmoid in (0,1) monotone; exp/log '
                      'monotone', 'keras NonNeg constraint keeps learned input scaling >= 0', 'z3 and cvc5'],
     'assumptions': ['float arithmetic treated as exact real arithmetic',
-                    'geometric-mean reduction: only monotonicity is proved, not the [0, 1 + eps] bound'],
+                    'geometric-mean reduction: log / exp monotonicity instantiated at the constants eps and 1 + eps (floating constants rounded outwards)'],
 }
 
 if __name__ == '__main__':
